@@ -307,6 +307,11 @@ var fieldPool = []poolField{
 		return reflect.ValueOf(c)
 	}},
 	{"Stamp", `avp:"Event-Timestamp"`, reflect.TypeOf(datatype.Time{}), func(r *rand.Rand) reflect.Value { return reflect.ValueOf(datatype.Time(genTime(r))) }},
+	// fields declared with a datatype type that is not the dictionary's type for the AVP but converts to it: the AVP
+	// must still carry the dictionary's type (added after a seeded change that used the field's type as it was)
+	{"RedirectAsUTF8", `avp:"Redirect-Host"`, reflect.TypeOf(datatype.UTF8String("")), func(r *rand.Rand) reflect.Value { return reflect.ValueOf(datatype.UTF8String("aaa://" + genStr(r))) }},
+	{"LifetimeAsU64", `avp:"Authorization-Lifetime"`, reflect.TypeOf(datatype.Unsigned64(0)), func(r *rand.Rand) reflect.Value { return reflect.ValueOf(datatype.Unsigned64(gen32(r))) }},
+	{"UserNameAsOctets", `avp:"User-Name"`, reflect.TypeOf(datatype.OctetString("")), func(r *rand.Rand) reflect.Value { return reflect.ValueOf(datatype.OctetString(genStr(r))) }},
 }
 
 // genLayout: a random subset of the pool in a random order, split over the outer struct and up to two embedded
@@ -452,6 +457,9 @@ func roundTrip(d *dict.Parser, src interface{}, fresh func() interface{}) (stage
 	if err := m.Marshal(src); err != nil {
 		return "marshal", "no error", err.Error()
 	}
+	if st, w, g := faithful(d, m.AVP); st != "" {
+		return st, w, g
+	}
 	want = canonOf(src)
 	dst := fresh()
 	if err := m.Unmarshal(dst); err != nil {
@@ -477,6 +485,33 @@ func roundTrip(d *dict.Parser, src interface{}, fresh func() interface{}) (stage
 	}
 	if got = canonOf(dst2); got != want {
 		return "wire", want, got
+	}
+	return "", "", ""
+}
+
+// faithful: every AVP Marshal produced carries the data type, vendor id and V flag the dictionary gives for its code
+// ("the AVPs produced are those a caller would build by hand from the dictionary"), recursively.
+func faithful(d *dict.Parser, avps []*diam.AVP) (stage, want, got string) {
+	for _, a := range avps {
+		da, err := d.FindAVPWithVendor(0, a.Code, a.VendorID)
+		if err != nil {
+			return "faithful-lookup", "AVP " + fmt.Sprint(a.Code) + " defined", err.Error()
+		}
+		if g, ok := a.Data.(*diam.GroupedAVP); ok {
+			if da.Data.Type != datatype.GroupedType {
+				return "faithful-type", "dictionary type " + fmt.Sprint(da.Data.Type), "a group"
+			}
+			if st, w, g2 := faithful(d, g.AVP); st != "" {
+				return st, w, g2
+			}
+			continue
+		}
+		if a.Data.Type() != da.Data.Type {
+			return "faithful-type", fmt.Sprintf("AVP %d (%s) carries data type %d", a.Code, da.Name, da.Data.Type), fmt.Sprintf("data type %d (%T)", a.Data.Type(), a.Data)
+		}
+		if (da.VendorID != 0) != (a.Flags&0x80 != 0) {
+			return "faithful-vflag", fmt.Sprintf("V flag iff vendor (%d)", da.VendorID), fmt.Sprintf("flags %#x", a.Flags)
+		}
 	}
 	return "", "", ""
 }
@@ -603,7 +638,7 @@ func main() {
 		"property_id": "C18", "tier": *tier, "seed": *seed, "level": "exploration", "wall_s": time.Since(t0).Seconds(), "violations": len(fails),
 		"coverage": map[string]interface{}{
 			"evaluations": evals, "distinct_nontrivial": len(distinct),
-			"rule": "BOUNDED stand-in, not a proof: three struct types and a generated family (Layout: a random subset of a pool of 16 tagged fields in random order, split over the outer struct and up to two anonymous embedded structs placed at random positions, built with reflect.StructOf, three per round; Scalars: one field per data type incl. native Go scalars; Shapes: embedded struct, []T, []datatype, *T, nested group, anonymous group struct, []*struct up to 3 elements, *struct, omitempty; AVPs: *AVP, []*AVP, AVP) x generated values (zero values, corner values of every width, NaN / infinities / denormals, empty and odd-length strings, times on both sides of the 2036 era boundary, IPv4 and IPv6 addresses); each case is marshalled, unmarshalled directly and after Serialize+ReadMessage, compared by a canonical text (floats by bit pattern, times to the second, nil == empty slice); for Scalars the AVPs are also compared with the dictionary (code, vendor id, M/V flags, type); each message is also re-read with its grouped AVPs relabelled as an unknown vendor's (opaque data) and unmarshalled, which must not panic. A case is distinct by its canonical text; every generated case is non-trivial in that all fields are set from the generator.",
+			"rule": "BOUNDED stand-in, not a proof: three struct types and a generated family (Layout: a random subset of a pool of 19 tagged fields (three of them declared with a datatype type that differs from, but converts to, the dictionary's type) in random order, split over the outer struct and up to two anonymous embedded structs placed at random positions, built with reflect.StructOf, three per round; Scalars: one field per data type incl. native Go scalars; Shapes: embedded struct, []T, []datatype, *T, nested group, anonymous group struct, []*struct up to 3 elements, *struct, omitempty; AVPs: *AVP, []*AVP, AVP) x generated values (zero values, corner values of every width, NaN / infinities / denormals, empty and odd-length strings, times on both sides of the 2036 era boundary, IPv4 and IPv6 addresses); each case is marshalled, unmarshalled directly and after Serialize+ReadMessage, compared by a canonical text (floats by bit pattern, times to the second, nil == empty slice); for Scalars the AVPs are also compared with the dictionary (code, vendor id, M/V flags, type); for every case every AVP Marshal produced (recursively) must carry the dictionary's data type and V flag for its code; each message is also re-read with its grouped AVPs relabelled as an unknown vendor's (opaque data) and unmarshalled, which must not panic. A case is distinct by its canonical text; every generated case is non-trivial in that all fields are set from the generator.",
 			"samples": samples, "exhaustive": false,
 		},
 		"assumptions": []string{"bounded exploration only: " + fmt.Sprint(*n) + " random cases per struct type from the seed, slices of at most 3 elements, group nesting depth 2; reflect.go is NOT verified", "the base dictionary plus one generated dictionary (ten AVPs covering the data types the base lacks)"},
